@@ -76,6 +76,16 @@ func plausible(kind string, vpn bool, req *scan.Request, f []byte) bool {
 	}
 }
 
+// safeFill turns a panic inside Fill (torn shared state) into an error so that it is reported as a case.
+func safeFill(f filler, b gopacket.SerializeBuffer, req *scan.Request) (err error) {
+	defer func() {
+		if p := recover(); p != nil {
+			err = fmt.Errorf("panic in Fill: %v", p)
+		}
+	}()
+	return f.Fill(b, req)
+}
+
 type concCfg struct {
 	kind string
 	vpn  bool
@@ -132,7 +142,7 @@ func (g *gen) concurrentStage(n, workers int, only string) {
 					if cfg.kind == "arp" {
 						req.DstMAC = nil
 					}
-					err := f.Fill(b, req)
+					err := safeFill(f, b, req)
 					ok := err == nil && plausible(cfg.kind, cfg.vpn, req, b.Bytes())
 					if ok && i%sampleEvery != 0 {
 						continue
